@@ -320,7 +320,10 @@ def check_task_done_pairing(c: Ctx) -> None:
             g = c.cfg(u)
             qexpr = U(call.func.value)
             for n in g.nodes_of(st):
-                p = q.pair_search(g, n, lambda x: is_task_done(x, qexpr),
+                var_ = st.targets[0].id if isinstance(st, ast.Assign) and isinstance(st.targets[0], ast.Name) else None
+                nn = Facts(lambda a, var_=var_: a == var_ or a.startswith('__inl_'), rhs_value=lambda v: 'NN' if isinstance(v, (ast.Call, ast.Await)) and call_name(v.value if isinstance(v, ast.Await) else v) in ('get', 'get_nowait') else None,
+                           cg=c.cg, unit=u) if var_ else None  # a queue hands out events, never None
+                p = q.pair_search(g, n, lambda x: is_task_done(x, qexpr), facts=nn,
                                   exits=lambda x: x.kind in ('exit', 'raise_exit') or (x is not n and x.kind in ('for', 'while') and q.lexically_in(st, x.ast)))
                 if p is None:
                     c.ok(where(u, st), f'every exit after `{q.stmt_text(st, 60)}` (return, exception, cancellation at any await) passes {qexpr}.task_done()')
@@ -360,7 +363,7 @@ def check_task_done_pairing(c: Ctx) -> None:
 
         for n in g_.nodes_of(st_):
             p = _search([(n, ())], is_target=lambda x, d: is_task_done(x, qexpr), is_barrier=lambda x, d: bool(q.node_calls(x, 'process_event')) or (x is not n and x.kind in ('for', 'while') and q.lexically_in(st_, x.ast)),
-                        edge_ok=lambda x, e, d: None if (x is n and e.is_exc) else d)
+                        edge_ok=lambda x, e, d: None if e.is_exc else d)  # (an exception before process_event drops the event: nothing is "still being processed" then)
             if p is None:
                 c.ok(where(u, st_), f'{qexpr}.task_done() is reached only after process_event was entered for the dequeued event')
             else:
